@@ -60,7 +60,7 @@ ASSUMPTIONS = [
     "a generator is 'created by Jinja' iff its code object's file is '<template>' (DictLoader templates) or lies in the jinja2 package; async generators supplied by the data are tracked but not judged",
     "the harness holds strong references to every tracked generator, so 'finalizer hook not called' is subsumed by 'ag_frame is None when the task/consumer finished'",
     "an 'event-loop step' is one suspension of a harness awaitable under a send()-driven runner (identical to asyncio.sleep(0) steps of a task; a strided subset is re-run under a real asyncio task)",
-    "'inside a filtered loop' is decided by the harness's own tracked iterables (started and not yet exhausted), not by the generators under test; a raising async loop test is counted as inside its loop (over-exclusion)",
+    "'inside a filtered loop' is decided by the harness's own tracked iterables (started, not yet exhausted, and not currently executing their next()/the loop test, in which case the filter generator is on the stack and is unwound normally), not by the generators under test",
     "lazy async filter generators (|select, |map ... feeding a for loop) are not generated: the statement lists template, block, include, parent and loop-filter generators only",
 ]
 
@@ -189,6 +189,7 @@ class _H:
         self.jinja_dir = jinja_dir
         self.calls = 0
         self.active = 0  # filtered-loop iterators started and not exhausted
+        self.on_stack = 0  # 1 while a loop test (ap) or a tracked iterator's next is executing: that loop's t_N is on the stack
         self.live = []
         self.finalized = []
         self.open_end = None
@@ -207,14 +208,14 @@ class _H:
 
     def at_fault(self):
         self.fault_hit = True
-        self.in_floop = self.active > 0
+        # a filtered loop whose filter generator is *suspended* (not the one currently running its test / pulling
+        # its next item: an exception or cancellation unwinds that one like any other frame)
+        self.in_floop = self.active - self.on_stack > 0
         self.open_at_fault = [r for r in self.live if r.g.ag_frame is not None]
 
-    def call(self, it=None):
+    def call(self):
         self.calls += 1
         if self.kind == "raise" and self.calls == self.k:
-            if it is not None:
-                it.done()  # the raising iterator's own loop filter is unwound by the exception
             self.at_fault()
             raise Boom("data call %d" % self.calls)
 
@@ -231,10 +232,14 @@ class _H:
             h.call()
             return "s"
 
-        async def ap(v):
-            h.call()
-            await _Y()
-            return v % 2 == 0
+        async def ap(v):  # only ever used as the test of a filtered loop
+            h.on_stack += 1
+            try:
+                h.call()
+                await _Y()
+                return v % 2 == 0
+            finally:
+                h.on_stack -= 1
 
         def seq(n):
             return list(range(n))
@@ -286,7 +291,11 @@ class _SyncFIt(_TrackedIt):
         return self
 
     def __next__(self):
-        self.h.call(self)
+        self.h.on_stack += 1
+        try:
+            self.h.call()
+        finally:
+            self.h.on_stack -= 1
         if self.i >= self.n:
             self.done()
             raise StopIteration
@@ -301,8 +310,15 @@ class _AIter(_TrackedIt):
         return self
 
     async def __anext__(self):
-        await _Y()
-        self.h.call(self)
+        tracked = self.open
+        if tracked:
+            self.h.on_stack += 1
+        try:
+            await _Y()
+            self.h.call()
+        finally:
+            if tracked:
+                self.h.on_stack -= 1
         if self.i >= self.n:
             self.done()
             raise StopAsyncIteration
@@ -319,9 +335,9 @@ class _GenIt(_TrackedIt):
         async def inner():
             for i in range(n):
                 await _Y()
-                h.call(self)
+                h.call()
                 yield i
-            h.call(self)
+            h.call()
 
         self.inner = inner()
 
@@ -329,11 +345,14 @@ class _GenIt(_TrackedIt):
         return self
 
     async def __anext__(self):
+        self.h.on_stack += 1
         try:
             return await self.inner.__anext__()
         except StopAsyncIteration:
             self.done()
             raise
+        finally:
+            self.h.on_stack -= 1
 
 
 class _AsyncF:
@@ -829,7 +848,7 @@ def run_shard(spec, ctx):
 
 
 # (nesting depth of the generated bodies, template sets per shard)
-PHASES = {"quick": [(3, 1200)], "thorough": [(3, 2500), (4, 4000), (5, 2500)]}
+PHASES = {"quick": [(3, 1000)], "thorough": [(3, 2000), (4, 4000), (5, 2000)]}
 
 
 def floors(total, tier):
